@@ -828,10 +828,7 @@ Proof.
   - destruct (handler_can_accept x) eqn:H; [|Rt]. cbn [fst]. apply ACC; [reflexivity|discriminate|discriminate].
   - destruct (d_block x); [Rt|]. destruct (aget (d_group x) (f_groups w)); [apply IH|Rt].
   - destruct (negb (operational x && negb (d_block x))); [Rt|apply TL].
-  - destruct (rev (item_gpath it)) as [|gp rest]; [apply R_fail|].
-    match goal with |- context[fold_left ?F ?l (w, false)] => pose proof (TL it l w false) as T; destruct (fold_left F l (w, false)) as [w1 ok] end.
-    cbn [fst] in T. destruct ok; cbn [fst]; [|exact T].
-    eapply R_trans; [exact T|]. apply R_one, ws_everywhere. intro p. reflexivity.
+  - destruct (rev (item_gpath it)) as [|gp rest]; [apply R_fail|apply TL].
 Qed.
 
 Lemma R_try_list fuel it l : mode <> MNeutral -> forall w0 b,
